@@ -410,7 +410,7 @@ def list_harnesses(prefixes):
             files += [(os.path.join(d, fn), fn) for fn in sorted(os.listdir(d)) if fn.endswith(".rs")]
     for path_, fn in files:
         src = open(path_).read()
-        for m in re.finditer(r"#\[kani::proof(?:_for_contract\([^)]*\))?\]((?:\s*#\[[^\]]*\])*)\s*(?:pub\s+)?fn\s+(\w+)", src):
+        for m in re.finditer(r"#\[kani::proof(?:_for_contract\([^)]*\))?\]((?:\s*#\[(?:[^\[\]]|\[[^\]]*\])*\])*)\s*(?:pub\s+)?fn\s+(\w+)", src):
             attrs, name = m.group(1), m.group(2)
             if any(name.startswith(p) for p in prefixes):
                 um = re.search(r"kani::unwind\((\d+)\)", attrs)
